@@ -60,6 +60,16 @@ def run(ctx, prop):
                                 extra_seed=b + {"C04": 100, "C12": 200, "C13": 300, "C17": 400}[prop], timeout=600)
         # TLC prints every candidate successor at the last depth: keep every 7th to avoid near-duplicates
         scripts += items[::7]
+        if prop == "C04":
+            # second profile: few argument variants, so that password changes, two-step logins and other users'
+            # activity between the two steps are frequent
+            _, items2 = ctx.generate("MC_Server", "Gen_Server_C04b.cfg", "genb%d.ndjson" % b, simulate=nsim, depth=32,
+                                     extra_seed=b + 150, timeout=600)
+            scripts += items2[::5]
+            # third profile: only connects, logins and account edits (credential-change histories)
+            _, items3 = ctx.generate("MC_Server", "Gen_Server_C04c.cfg", "genc%d.ndjson" % b, simulate=nsim, depth=32,
+                                     extra_seed=b + 170, timeout=600)
+            scripts += items3[::4]
     # free-running concurrency that is sound under every interleaving: a chat with permanent members, churning
     # members and outsiders (C12); simultaneous bans by several administrators followed by a restart (C17)
     world = scripts[0]["world"]
@@ -67,8 +77,8 @@ def run(ctx, prop):
         for k in range(2 if quick else 10):
             scripts.append({"world": world, "steps": [{"op": "chatstorm", "members": 4, "churners": 3, "outsiders": 2, "lines": 25}]})
     if prop == "C17":
-        for k in range(2 if quick else 10):
-            scripts.append({"world": world, "steps": [{"op": "banstorm", "n": 10}]})
+        for k in range(8 if quick else 40):
+            scripts.append({"world": world, "steps": [{"op": "banstorm", "n": 24}]})
     sp = ctx.path("scripts.ndjson")
     with open(sp, "w") as f:
         for s in scripts:
